@@ -15,7 +15,7 @@ from vlib import V
 import c20
 
 TIERS = {'quick': dict(fams=[('snippets', '')], cfgs='default,fs,od,esc,bt,bt+od,ma1', schedcfgs='default,bt', bound=1, maxexecs=120),
-         'thorough': dict(fams=[('snippets', ''), ('taint', 'k1d0'), ('cg2d1', '')], cfgs='default,fs,od,esc,fs+od,bt,bt+od,ma1,ma2', schedcfgs='default,od,esc,bt', bound=2, maxexecs=3000)}
+         'thorough': dict(fams=[('snippets', ''), ('taint', 'k1d0')], cfgs='default,fs,od,esc,fs+od,bt,bt+od,ma1,ma2', schedcfgs='default,bt', bound=2, maxexecs=1000)}
 
 
 def main(tier):
